@@ -19,6 +19,7 @@
 From RM Require Import Model.Sections Model.SectionsSpec.
 From RM Require Import Proofs.FloatCmp Proofs.NumFacts Proofs.FloatGrammar Proofs.SectionsFacts Proofs.RangeReal.
 From RM Require Import Proofs.DecimalRounding.
+From RM Require Import Model.Decoders Proofs.BreakOrder.
 From RM Require Import Gen.Generated.
 From Flocq Require Import BinarySingleNaN.
 From Flocq Require Zaux Raux Generic_fmt FLT Round_NE.
@@ -573,18 +574,70 @@ Theorem C11_ar_own_after_set :
 Proof. exact ar_own. Qed.
 Print Assumptions C11_ar_own_after_set.
 
-(* a break never ends before it starts *)
+(* a break never ends before it starts: for every run of the [Events] parser ... *)
 Theorem C11_breaks_never_end_before_start :
   forall lines, Forall break_ok (ev_breaks (run_lines parse_events events_default lines)).
 Proof. intros lines. exact (events_run_breaks lines events_default (Forall_nil _)). Qed.
 Print Assumptions C11_breaks_never_end_before_start.
+(* ... in the form the code tests it: the end is never below the start ... *)
+Theorem C11_breaks_end_not_before_start :
+  forall lines,
+    Forall (fun b => D.lt (bp_end b) (bp_start b) = false)
+           (ev_breaks (run_lines parse_events events_default lines)).
+Proof. exact events_run_breaks_ordered. Qed.
+Print Assumptions C11_breaks_end_not_before_start.
+(* ... and for every break of every decoded Events value, HitObjects value and
+   Beatmap: any file (no hypothesis on the lines), any curve-distance function *)
+Theorem C11_decoded_events_breaks :
+  forall lines,
+    Forall (fun b => D.le (bp_start b) (bp_end b) = true) (ev_breaks (decode_events lines)) /\
+    Forall (fun b => D.lt (bp_end b) (bp_start b) = false) (ev_breaks (decode_events lines)).
+Proof. exact (fun lines => conj (decoded_events_breaks lines) (decoded_events_breaks_ordered lines)). Qed.
+Print Assumptions C11_decoded_events_breaks.
+Theorem C11_decoded_hit_objects_breaks :
+  forall dist lines hv, decode_hit_objects dist lines = Done hv ->
+    Forall (fun b => D.le (bp_start b) (bp_end b) = true) (ev_breaks (hov_events hv)) /\
+    Forall (fun b => D.lt (bp_end b) (bp_start b) = false) (ev_breaks (hov_events hv)).
+Proof.
+  exact (fun dist lines hv H => conj (decoded_hit_objects_breaks dist lines hv H)
+                                     (decoded_hit_objects_breaks_ordered dist lines hv H)).
+Qed.
+Print Assumptions C11_decoded_hit_objects_breaks.
+Theorem C11_decoded_beatmap_breaks :
+  forall dist lines bv, decode_beatmap dist lines = Done bv ->
+    Forall (fun b => D.le (bp_start b) (bp_end b) = true) (ev_breaks (hov_events (bmv_ho bv))) /\
+    Forall (fun b => D.lt (bp_end b) (bp_start b) = false) (ev_breaks (hov_events (bmv_ho bv))).
+Proof.
+  exact (fun dist lines bv H => conj (decoded_beatmap_breaks dist lines bv H)
+                                     (decoded_beatmap_breaks_ordered dist lines bv H)).
+Qed.
+Print Assumptions C11_decoded_beatmap_breaks.
+(* one break record: the end time is the written end, or the start when the
+   written end lies before it; it is one of the two written values *)
 Theorem C11_break_record :
   forall st start params more s e,
     pn_f64 start = Some s -> pn_f64 params = Some e ->
-    fst (act_break start params more st) = set_ev_breaks st (ev_breaks st ++ [mkBreak s (D.max s e)]) /\
-    D.le s (D.max s e) = true /\ D.le e (D.max s e) = true /\ (D.max s e = s \/ D.max s e = e).
+    let e' := if D.lt e s then s else e in
+    fst (act_break start params more st) = set_ev_breaks st (ev_breaks st ++ [mkBreak s e']) /\
+    D.le s e' = true /\ D.le e e' = true /\ D.lt e' s = false /\ (e' = s \/ e' = e).
 Proof. exact break_line. Qed.
 Print Assumptions C11_break_record.
+(* a record with end >= start keeps its end time: the stored value IS the parsed
+   one (no arithmetic in between), so a zero keeps its sign -- `2,-0,0` and
+   `2,0,-0` are stored as written (ex_break_zeros below) *)
+Theorem C11_break_end_kept :
+  forall st start params more s e,
+    pn_f64 start = Some s -> pn_f64 params = Some e -> D.le s e = true ->
+    fst (act_break start params more st) = set_ev_breaks st (ev_breaks st ++ [mkBreak s e]).
+Proof. exact break_line_kept. Qed.
+Print Assumptions C11_break_end_kept.
+(* a record written backwards ends where it starts *)
+Theorem C11_break_reversed :
+  forall st start params more s e,
+    pn_f64 start = Some s -> pn_f64 params = Some e -> D.lt e s = true ->
+    fst (act_break start params more st) = set_ev_breaks st (ev_breaks st ++ [mkBreak s s]).
+Proof. exact break_line_reversed. Qed.
+Print Assumptions C11_break_reversed.
 
 (* background / video-with-image-extension / first sprite *)
 Theorem C11_background_precedence :
@@ -643,6 +696,14 @@ Proof. vm_compute. repeat split. Qed.
 Example ex_break :
   run_dump parse_events dump_events events_default ["2,500,100"]
   = [0; 1; 4647503709213818880; 4647503709213818880].
+Proof. vm_compute. reflexivity. Qed.
+(* a break with end >= start keeps both times bit for bit -- also between the two
+   zeros, in either sign order, and with equal start and end (-0.0 has the bit
+   pattern 2^63; formerly finding D24: start.max(end) returned the start on a tie) *)
+Example ex_break_zeros :
+  run_dump parse_events dump_events events_default ["2,-0,0"; "2,0,-0"; "2,-0,-0"; "Break,0,0"; "2,100,100"; "2,100,900"]
+  = [0; 6; 9223372036854775808; 0;  0; 9223372036854775808;  9223372036854775808; 9223372036854775808;
+     0; 0;  4636737291354636288; 4636737291354636288;  4636737291354636288; 4651127699538968576].
 Proof. vm_compute. reflexivity. Qed.
 (* colours: alpha ignored (always 255), Combo* appended, names replaced *)
 Example ex_colours :
